@@ -8,7 +8,7 @@ driver) on the outputs of the real code for every clause of the property.
 """
 import json
 
-from core import Result, call, ddmin, parallel_map
+from core import history_probe, Result, call, ddmin, parallel_map
 from gen import g2
 
 CORPUS_QUICK = ["1A1T_1_B.cif", "1ehz-assembly-1.cif"]
@@ -267,6 +267,7 @@ def evaluate(ctx, res, cases, lw_values, verbose=False):
             res.fail("corr", "C06:is_connected", {"structure": structs[k]}, "impl=%r model=%r" % (rc, cn))
         view[k] = (d, cn)
     outs = parallel_map(real, [c for _, c in cases])
+    history_probe(ctx, res, real, [c for _, c in cases], "mapping")
     reqs, idx = [], []
     for ci, ((tag, c), o) in enumerate(zip(cases, outs)):
         d, cn = view[keyof(c)]
